@@ -145,6 +145,16 @@ func cfgValue(name string, rng *mrand.Rand) any {
 		return map[string]any{"k": map[string]any{"n": []any{"v", 1}}}
 	case "deep_w":
 		return map[string]any{"k": map[string]any{"n": []any{"w", 1}}}
+	case "nest_map":
+		return map[string]any{"environment": map[string]any{}, "volumes": []any{"x", []any{}}}
+	case "nest_list":
+		return map[string]any{"environment": []any{}, "volumes": []any{"x", []any{}}}
+	case "nest_null":
+		return map[string]any{"environment": nil, "volumes": []any{"x", []any{}}}
+	case "nest_el_map":
+		return map[string]any{"environment": map[string]any{}, "volumes": []any{"x", map[string]any{}}}
+	case "nest_el_null":
+		return map[string]any{"environment": map[string]any{}, "volumes": []any{"x", nil}}
 	case "num1":
 		return map[string]any{"k": 1}
 	case "str1":
@@ -492,6 +502,38 @@ func payloadHashes(s map[string]any, R int, rng *mrand.Rand) (signH []string, ve
 			}
 			signH = append(signH, sha(lg3.payloads[0]))
 		}
+		if r == 1 {
+			// history on the OBJECT, by edits: the same step value first holds MORE (an extra adjustment in its matrix, an
+			// extra variable, an extra plugin) and is signed like that; the extras are then taken out again through the
+			// fields themselves, and what is signed now is the content it holds now
+			st4 := buildStep(s["c"].(map[string]any), rng)
+			var adjs pipeline.MatrixAdjustments
+			if st4.Matrix != nil {
+				adjs = st4.Matrix.Adjustments
+				st4.Matrix.Adjustments = append(append(pipeline.MatrixAdjustments{}, adjs...), &pipeline.MatrixAdjustment{With: pipeline.MatrixAdjustmentWith{"os": "edited", "": "edited"}, Skip: true})
+			}
+			plugs := st4.Plugins
+			st4.Plugins = append(append(pipeline.Plugins{}, plugs...), &pipeline.Plugin{Source: "edited#v1", Config: map[string]any{"k": "edited"}})
+			if st4.Env != nil {
+				st4.Env["ZZ_EDITED"] = "e"
+			}
+			if _, err := signature.Sign(ctx, kp.sign, st4, signature.WithEnv(envOf(s["penv"], rng))); err != nil {
+				panic("Sign of the step before the edit: " + err.Error())
+			}
+			if st4.Matrix != nil {
+				st4.Matrix.Adjustments = adjs
+			}
+			st4.Plugins = plugs
+			delete(st4.Env, "ZZ_EDITED")
+			lg4 := &payloadLogger{}
+			if _, err := signature.Sign(ctx, kp.sign, st4, signature.WithEnv(envOf(s["penv"], rng)), signature.WithLogger(lg4), signature.WithDebugSigning(true)); err != nil {
+				panic("Sign of the edited step: " + err.Error())
+			}
+			if len(lg4.payloads) != 1 {
+				panic(fmt.Sprintf("driver: expected one logged payload, got %d", len(lg4.payloads)))
+			}
+			signH = append(signH, sha(lg4.payloads[0]))
+		}
 		if r == 0 {
 			st2 := buildStep(s["c"].(map[string]any), rng)
 			vl := &payloadLogger{}
@@ -697,6 +739,8 @@ func runC14(args []string) {
 // C06: SignSteps over step trees.
 // ---------------------------------------------------------------------------
 
+var c06SharedStale *pipeline.Signature // one stale signature object shared by several steps of the tree being built
+
 func c06Build(nodes []any, path string, rng *mrand.Rand) pipeline.Steps {
 	steps := pipeline.Steps{}
 	for i, n := range nodes {
@@ -734,6 +778,13 @@ func c06Build(nodes []any, path string, rng *mrand.Rand) pipeline.Steps {
 				// a stale signature from an earlier signing run must be replaced, whatever its algorithm says
 				cs.Signature = &pipeline.Signature{Algorithm: []string{"EdDSA", "ES512", "PS512", "ES256"}[rng.Intn(4)],
 					SignedFields: []string{"command", "env", "matrix", "plugins", "repository_url"}, Value: "eyJhbGciOiJFZERTQSJ9..c3RhbGU"}
+			} else if rng.Intn(3) == 0 {
+				// ... also when several steps (stamped out of one signed template) hold the very same stale object: each
+				// step gets a signature of its own
+				if c06SharedStale == nil {
+					c06SharedStale = &pipeline.Signature{Algorithm: "EdDSA", SignedFields: []string{"command", "env", "matrix", "plugins", "repository_url"}, Value: "eyJhbGciOiJFZERTQSJ9..c2hhcmVk"}
+				}
+				cs.Signature = c06SharedStale
 			}
 			steps = append(steps, cs)
 		case "wait":
@@ -751,7 +802,11 @@ func c06Build(nodes []any, path string, rng *mrand.Rand) pipeline.Steps {
 		case "group":
 			g := "g" + p
 			kids, _ := nm["kids"].([]any)
-			steps = append(steps, &pipeline.GroupStep{Group: &g, Steps: c06Build(kids, p, rng)})
+			gs := &pipeline.GroupStep{Group: &g, Steps: c06Build(kids, p, rng)}
+			if rng.Intn(3) == 0 {
+				gs.Group = nil // `group: ~` - a group without a label is still a group
+			}
+			steps = append(steps, gs)
 		default:
 			fatal("c06: bad kind %v", nm["kind"])
 		}
@@ -799,6 +854,7 @@ func runC06(args []string) {
 		tree, _ := c["tree"].([]any)
 		ev := obj{"c": obj{"tree": tree, "penv": c["penv"], "alg": alg, "rot": rot}, "err": false, "cmds": []any{}, "unchanged": false, "envunchanged": false}
 		p, msg := guarded(func() {
+			c06SharedStale = nil
 			steps := c06Build(tree, "", rng)
 			penv := envOf(c["penv"], rng)
 			penvCopy := map[string]string{}
